@@ -231,6 +231,9 @@ func bfgs(f_ Objective, f ObjectiveInSitu, x0 Vector, H0 Matrix, epsilon Epsilon
   if t1.Vnorm(g1).GetFloat64() < epsilon.Value {
     return x1, nil
   }
+  if math.IsNaN(t1.GetFloat64()) || math.IsInf(t1.GetFloat64(), 0) {
+    return x1, fmt.Errorf("gradient is NaN or Inf for initial value: %v", x1)
+  }
   // execute hook if available
   if hook.Value != nil && hook.Value(x1, g1, y1) {
     return x1, nil
@@ -273,6 +276,9 @@ func bfgs(f_ Objective, f ObjectiveInSitu, x0 Vector, H0 Matrix, epsilon Epsilon
       // evaluate stop criterion
       if t1.Vnorm(g2).GetFloat64() < epsilon.Value {
         break
+      }
+      if math.IsNaN(t1.GetFloat64()) || math.IsInf(t1.GetFloat64(), 0) {
+        return x1, fmt.Errorf("gradient is NaN or Inf at %v", x2)
       }
       if first_update {
         // compute heuristic steplength y^T s / (y^T y)
